@@ -54,6 +54,15 @@ def run_check(prop, tier, seed):
     os.makedirs(REPLAY_DIR, exist_ok=True)
     lines = []
     not_reproduced = []
+    # Engine C: re-run every failing case together with its predecessors in the
+    # product order *before* any isolated replay touches the process state (an
+    # isolated call can itself warm a cache the right way round)
+    history = {}
+    for cls, v in rep.violations.items():
+        eng = v['payload'].get('_engine_c') if isinstance(v['payload'], dict) else None
+        if eng:
+            from vlib.mc import enum as _enum
+            history[cls] = _enum.rerun(eng[0], eng[1], back=64)
     for cls, v in rep.violations.items():
         art = {'property': prop, 'class': cls, 'summary': jsonable(v['summary']),
                'count': v['count'], 'payload': v['payload'],
@@ -83,12 +92,7 @@ def run_check(prop, tier, seed):
                 # Engine C: the answer may depend on the calls that preceded it
                 # in the worker (a cache keyed too coarsely ...): re-run the
                 # case together with its predecessors in the product order
-                eng = v['payload'].get('_engine_c') if isinstance(v['payload'], dict) else None
-                again = None
-                if eng:
-                    from vlib.mc import enum as _enum
-                    again = _enum.rerun(eng[0], eng[1])
-                    again2 = _enum.rerun(eng[0], eng[1])
+                again = again2 = history.get(cls)
                 if again and again2:
                     o1 = {'violates': True, 'history_dependent': True,
                           'note': 'reproduces only after the preceding cases of the product '
